@@ -1,4 +1,4 @@
-\* exhaustive: arrays of 1 context: every kind x names {b1} (+2 names with spaces, +4 typed kinds with a binding NAMED onStartup) x every subset of (candidates + __main__ + distractors) x failing {none, all} x {run, --config}; arrays of 2: 12 contexts (10 kinds on b1, Added and Schedule on a second binding monitor-pods.v2) ; arrays of 3: onStartup, Added, Schedule on b1; arrays >= 2: <= 2 handlers defined, failing none or one
+\* exhaustive: arrays of 1 context: every kind x names {b1} (+2 names with spaces, +4 typed kinds with a binding NAMED onStartup) x every subset of (candidates + __main__ + distractors) x failing {none, all} x {run, --config}; Conversion with fromVersion and toVersion each plain or group-qualified (4 variants) in arrays of 1, both group-qualified in arrays of 2; arrays of 2: 12 contexts (10 kinds on b1, Added and Schedule on a second binding monitor-pods.v2) ; arrays of 3: onStartup, Added, Schedule on b1; arrays >= 2: <= 2 handlers defined, failing none or one
 SPECIFICATION Spec
 CONSTANTS
   Names1 = {"b1"}
@@ -11,6 +11,8 @@ CONSTANTS
   SpacedNames = {"Monitor pods in cache tier", "every minute"}
   CommandWords = {"Monitor pods in cache tier"}
   StartupKinds = {"Synchronization", "Added", "Group", "Schedule"}
+  ConvGroups1 = {"", "stable.example.com"}
+  ConvGroups2 = {"stable.example.com"}
   MaxDefArr = 2
   WithEmpty = TRUE
   WithConfig = TRUE
